@@ -522,3 +522,55 @@ func (it *hashmapIter) next() tuple {
 		it.cur = it.iter.Value().Interface().(*entry)
 	}
 }
+
+// loadF / storeF are load / store with footprint logging of the leaf cells.
+func (i *interpreter) loadF(T types.Type, addr *value) value {
+	f := i.p.foot
+	if f == nil || f.cur == 0 {
+		return load(T, addr)
+	}
+	switch T := T.Underlying().(type) {
+	case *types.Struct:
+		v := (*addr).(structure)
+		a := make(structure, len(v))
+		for k := range a {
+			a[k] = i.loadF(T.Field(k).Type(), &v[k])
+		}
+		return a
+	case *types.Array:
+		v := (*addr).(array)
+		a := make(array, len(v))
+		for k := range a {
+			a[k] = i.loadF(T.Elem(), &v[k])
+		}
+		return a
+	default:
+		f.read(addr)
+		return *addr
+	}
+}
+
+func (i *interpreter) storeF(T types.Type, addr *value, v value) {
+	f := i.p.foot
+	if f == nil || f.cur == 0 {
+		store(T, addr, v)
+		return
+	}
+	switch T := T.Underlying().(type) {
+	case *types.Struct:
+		lhs := (*addr).(structure)
+		rhs := v.(structure)
+		for k := range lhs {
+			i.storeF(T.Field(k).Type(), &lhs[k], rhs[k])
+		}
+	case *types.Array:
+		lhs := (*addr).(array)
+		rhs := v.(array)
+		for k := range lhs {
+			i.storeF(T.Elem(), &lhs[k], rhs[k])
+		}
+	default:
+		f.write(addr)
+		*addr = v
+	}
+}
